@@ -26,7 +26,8 @@ structure Graph (S : Type) where
   kids : Nat → List Slot
   vjp : Nat → Option (Closure S)
 
-/-- The mutable per-node cells, plus a ghost log of closure invocations. -/
+/-- The mutable per-node cells, plus a ghost log: every entry into `backward` on a node, with the
+    delta it took from the cell (for a node with a closure: the delta the closure receives). -/
 structure EState (S : Type) where
   cnt : Nat → Nat
   delta : Nat → Option (Tensor S)
@@ -64,6 +65,12 @@ def propagate (G : Graph S) : Nat → Nat → Cnt → Cnt
 section
 variable [Add S] [Mul S] [Neg S] [Sub S] [ScalarOps S] [BEq S]
 
+/-- `match child.delta.take() { Some(x) => &x + &delta', None => delta' }` -/
+def mergeDelta (old : Option (Tensor S)) (d' : Tensor S) : R (Tensor S) :=
+  match old with
+  | some x => add x d'
+  | none => pure d'
+
 /-- The delivery loop of `backward`: for every `Some(delta)` returned for operand `i`, merge it into
     the operand's pending delta (always reduced to the operand's dimensions), decrement the
     operand's count and recurse exactly on the 1 → 0 transition. -/
@@ -75,22 +82,27 @@ def deliver (rec : Nat → Bool → EState S → R (EState S)) :
   | _ :: ss, none :: ds, σ => deliver rec ss ds σ
   | s :: ss, some d :: ds, σ => do
     let d' ← flattenTo d s.dims
-    let nd ← match σ.delta s.node with
-      | some x => add x d'
-      | none => pure d'
-    let σ1 : EState S := { σ with delta := upd σ.delta s.node (some nd) }
-    let c := σ1.cnt s.node
-    if c = 0 then throw .underflow
-    let σ2 : EState S := { σ1 with cnt := upd σ1.cnt s.node (c - 1) }
-    let σ3 ← if c = 1 then rec s.node s.keep σ2 else pure σ2
+    let nd ← mergeDelta (σ.delta s.node) d'
+    if σ.cnt s.node = 0 then throw .underflow
+    let σ2 : EState S :=
+      { σ with delta := upd σ.delta s.node (some nd), cnt := upd σ.cnt s.node (σ.cnt s.node - 1) }
+    let σ3 ← if σ.cnt s.node = 1 then rec s.node s.keep σ2 else pure σ2
     deliver rec ss ds σ3
 
 /-- The final accumulation of `backward` into the gradient cell. -/
 def storeGrad (n : Nat) (x : Tensor S) (σ : EState S) : R (EState S) := do
-  let g ← match σ.grad n with
-    | some g => add g x
-    | none => pure x
+  let g ← mergeDelta (σ.grad n) x
   pure { σ with grad := upd σ.grad n (some g) }
+
+/-- The middle of `backward`: call the closure (all stored operands untracked meanwhile, then
+    restored) and deliver its answers; a node without a closure must be a leaf. -/
+def enter (G : Graph S) (rec : Nat → Bool → EState S → R (EState S)) (n : Nat) (x : Tensor S)
+    (σ0 : EState S) : R (EState S) :=
+  match G.vjp n with
+  | some cl => do
+    let ds ← cl ((G.kids n).map (·.tracked)) x
+    deliver rec (G.kids n) ds σ0
+  | none => if (G.kids n).isEmpty then pure σ0 else throw .notDifferentiable
 
 /-- `backward` on a handle of node `n` whose pending delta is set (the recursive case
     `child.backward(None)`, and the root after its seed has been put into the cell). -/
@@ -100,15 +112,14 @@ def process (G : Graph S) : Nat → Nat → Bool → EState S → R (EState S)
     match σ.delta n with
     | none => throw .modelGap
     | some x => do
-      let σ0 : EState S := { σ with delta := upd σ.delta n none }
-      let σ1 ← match G.vjp n with
-        | some cl => do
-          let flags := (G.kids n).map (·.tracked)
-          let ds ← cl flags x
-          deliver (process G f) (G.kids n) ds { σ0 with log := (n, x) :: σ0.log }
-        | none =>
-          if (G.kids n).isEmpty then pure σ0 else throw .notDifferentiable
+      let σ1 ← enter G (process G f) n x { σ with delta := upd σ.delta n none, log := (n, x) :: σ.log }
       if (G.kids n).isEmpty || keep then storeGrad n x σ1 else pure σ1
+
+/-- the seed, or all ones of the handle's dimensions when omitted -/
+def seedOrOnes (seed : Option (Tensor S)) (dims : List Nat) : R (Tensor S) :=
+  match seed with
+  | some s => pure s
+  | none => Tensor.mk? dims (List.replicate (prod dims) one)
 
 /-- `Array::backward(seed)` on a handle of node `n` with dimensions `dims` and keep flag `keep`.
     If a delta is pending it is used (and the seed ignored); otherwise consumer counts are
@@ -119,9 +130,7 @@ def backward (G : Graph S) (fuel : Nat) (n : Nat) (dims : List Nat) (keep : Bool
   | some _ => process G fuel n keep σ
   | none => do
     let cnt := (propagate G fuel n ⟨σ.cnt⟩).get
-    let x ← match seed with
-      | some s => pure s
-      | none => Tensor.mk? dims (List.replicate (prod dims) one)
+    let x ← seedOrOnes seed dims
     process G fuel n keep { σ with cnt := cnt, delta := upd σ.delta n (some x) }
 
 end
